@@ -106,13 +106,14 @@ UNARY = [
     ("pluck_list1", dict(kind="pluck", lits=[1], b1=True), ("t2",), _const("tv")),      # a list pick of length one yields a 1-tuple
     ("pluck_list3", dict(kind="pluck", lits=[0, 1, 0], b1=True), ("t2",), _const("tv")),
     ("collect", dict(kind="collect"), ANY, _part_out(3)),
+    ("collect_max2", dict(kind="collect", m=2), ANY, _part_out(3)),
     ("union1", dict(kind="union"), ANY, _same),
     ("stream", dict(kind="stream"), ANY, _same),
 ]
 # a frequency table ("d": a dict -- unhashable, iterating it yields its keys) may flow through the nodes that neither hash nor
 # unpack what they carry
 _OPAQUE = {"map_id", "filter_true", "slice_all", "slice_1_none_2", "slice_0_2_1", "slice_1_3_1", "partition_1", "partition_2", "partition_3",
-           "sliding_1", "sliding_2_partial", "sliding_2_full", "sliding_3_partial", "collect", "union1", "stream"}
+           "sliding_1", "sliding_2_partial", "sliding_2_full", "sliding_3_partial", "collect", "collect_max2", "union1", "stream"}
 UNARY = [(lab, kw, (acc + ("d",)) if lab in _OPAQUE else acc, out) for (lab, kw, acc, out) in UNARY]
 UNARY_BY_LABEL = {u[0]: u for u in UNARY}
 
@@ -240,7 +241,7 @@ def catalogue(tier):
     core2 = ["map_inc", "filter_even", "acc_add", "slice_1_none_2", "slice_0_2_1", "partition_2",
              "partition_2_mod2", "punique_2_mod2_first", "punique_2_id_last", "sliding_2_partial",
              "sliding_2_full", "unique", "unique_max1", "unique_list_max1", "flatten", "map_pair",
-             "pluck_1", "pluck_list1", "frequencies", "remove_even", "concat", "scan_add", "collect", "starmap_add2", "map_rep", "acc_add_ws"]
+             "pluck_1", "pluck_list1", "frequencies", "remove_even", "concat", "scan_add", "collect", "collect_max2", "starmap_add2", "map_rep", "acc_add_ws"]
     if tier == "quick":
         progs += [c for c in chains(2, core2) if c[0].count(">") == 1]
     else:
